@@ -12,28 +12,36 @@ Ltac st_simpl :=
 Ltac occ_unfold :=
   unfold total, shown_total, ret_occ, yld_occ, raises_occ, warns_occ in *; st_simpl.
 
+Lemma list_sum_cons : forall x l, list_sum (x :: l) = x + list_sum l.
+Proof. reflexivity. Qed.
+Lemma list_sum_nil : list_sum [] = 0.
+Proof. reflexivity. Qed.
+
 Lemma ty_occ_key : forall i (k k' : pname) v, ty_occ i (k, v) = ty_occ i (k', v).
 Proof. reflexivity. Qed.
 
 Lemma dict_set_occ_le : forall i (k : pname) v d, types_occ i (dict_set k v d) <= types_occ i d + ty_occ i (k, v).
 Proof.
   intros i k v d. induction d as [|[k' v'] d IH]; cbn [dict_set].
-  - unfold types_occ. cbn [map list_sum fold_right]. lia.
+  - unfold types_occ. cbn [map]; rewrite ?list_sum_cons, ?list_sum_nil. lia.
   - destruct (text_eqb (pn_text k') (pn_text k)).
-    + unfold types_occ. cbn [map list_sum fold_right]. rewrite (ty_occ_key i k' k). Show. lia.
-    + unfold types_occ in *. cbn [map list_sum fold_right]. lia.
+    + unfold types_occ. cbn [map]; rewrite ?list_sum_cons, ?list_sum_nil. rewrite (ty_occ_key i k' k). lia.
+    + unfold types_occ in *. cbn [map]; rewrite ?list_sum_cons, ?list_sum_nil. lia.
 Qed.
 
 Lemma unknowns_add_occ : forall p i tag v d,
   unknowns_occ p i (unknowns_add tag v d) = unknowns_occ p i d + (if p tag then unk_list_occ i [v] else 0).
 Proof.
   intros p i tag v d. induction d as [|[k l] d IH]; cbn [unknowns_add].
-  - unfold unknowns_occ. cbn [map list_sum fold_right fst snd]. destruct (p tag); lia.
+  - unfold unknowns_occ. cbn [map fst snd]; rewrite ?list_sum_cons, ?list_sum_nil. destruct (p tag); lia.
   - destruct (text_eqb k tag) eqn:Ek.
-    + apply text_eqb_eq in Ek. subst k. unfold unknowns_occ. cbn [map list_sum fold_right fst snd].
+    + apply text_eqb_eq in Ek. subst k. unfold unknowns_occ. cbn [map fst snd]; rewrite ?list_sum_cons, ?list_sum_nil.
       destruct (p tag); [|lia]. unfold unk_list_occ. rewrite map_app, idx_occ_app. cbn [map]. lia.
-    + unfold unknowns_occ in *. cbn [map list_sum fold_right]. rewrite IH. lia.
+    + unfold unknowns_occ in *. cbn [map]; rewrite ?list_sum_cons, ?list_sum_nil. rewrite IH. lia.
 Qed.
+
+Lemma pds_occ_one : forall i p, pds_occ i [p] = pd_occ i p.
+Proof. intros. unfold pds_occ. cbn [map]. rewrite list_sum_cons, list_sum_nil. lia. Qed.
 
 Lemma idx_occ_one : forall i j, idx_occ i [j] = if Nat.eqb j i then 1 else 0.
 Proof. intros. unfold idx_occ. cbn. lia. Qed.
@@ -49,10 +57,10 @@ Section WithEnv.
     st_unknowns a = st_unknowns b /\ exists extra, st_reports a = st_reports b ++ extra.
 
   Lemma same_buckets_refl : forall st, same_buckets st st.
-  Proof. intros st. unfold same_buckets. repeat split. exists []. symmetry. apply app_nil_r. Qed.
+  Proof. intros st. unfold same_buckets. repeat (split; [reflexivity|]). exists []. symmetry. apply app_nil_r. Qed.
 
   Lemma add_report_same : forall i k n v st, same_buckets (add_report i k n v st) st.
-  Proof. intros. unfold same_buckets. st_simpl. repeat split. eexists. reflexivity. Qed.
+  Proof. intros. unfold same_buckets. st_simpl. repeat (split; [reflexivity|]). eexists. reflexivity. Qed.
 
   Lemma unexpected_arg_same : forall i f st, same_buckets (unexpected_arg i f st) st.
   Proof. intros. unfold unexpected_arg. destruct (f_arg f); [apply add_report_same | apply same_buckets_refl]. Qed.
@@ -78,12 +86,12 @@ Section WithEnv.
     intros i f st n. unfold handle_param_name, arg_name. destruct (f_arg f) as [a|]; cbn [fst option_map]; [|discriminate].
     assert (LS : forall t, lstrip_star t = strip_stars t).
     { induction t as [|c t IH]; [reflexivity|]. cbn. destruct c as [|p]; [reflexivity|].
-      repeat (destruct p as [p|p|]; try reflexivity). exact IH. }
+      repeat (destruct p as [p|p|]; try reflexivity); try exact IH. }
     destruct (annotations_of_source E) as [anns|].
     - destruct (find (fun p => text_eqb (pn_text p) (lstrip_star a)) anns) as [p|] eqn:F; cbn [fst]; intro H; inversion H; subst.
-      + apply find_some in F. destruct F as [_ F]. apply text_eqb_eq in F. rewrite F, LS. reflexivity.
-      + cbn. rewrite LS. reflexivity.
-    - cbn [fst]. intro H. inversion H; subst. cbn. rewrite LS. reflexivity.
+      + apply find_some in F. destruct F as [_ F]. apply text_eqb_eq in F. rewrite F. first [reflexivity | f_equal; symmetry; apply LS].
+      + cbn. first [reflexivity | f_equal; symmetry; apply LS].
+    - cbn [fst]. intro H. inversion H; subst. cbn. first [reflexivity | f_equal; symmetry; apply LS].
   Qed.
 
   Lemma param_name_none : forall i f st,
@@ -93,5 +101,398 @@ Section WithEnv.
     intros i f st. unfold handle_param_name. destruct (f_arg f) as [a|].
     - destruct (annotations_of_source E) as [anns|]; [destruct (find _ anns)|]; cbn [fst]; discriminate.
     - intros _. split; [reflexivity|]. st_simpl. cbn [snd]. st_simpl. eexists. split; reflexivity.
+  Qed.
+
+  (* ---- a step adds at most one occurrence of its own index and never another index ------------------ *)
+  Ltac same_rw H :=
+    let S1 := fresh "S" in let S2 := fresh "S" in let S3 := fresh "S" in let S4 := fresh "S" in
+    let S5 := fresh "S" in let S6 := fresh "S" in let S7 := fresh "S" in let S8 := fresh "S" in
+    let S9 := fresh "S" in let S10 := fresh "S" in let S11 := fresh "S" in let S12 := fresh "S" in
+    destruct H as (S1 & S2 & S3 & S4 & S5 & S6 & S7 & S8 & S9 & S10 & S11 & S12);
+    st_simpl;
+    rewrite ?S1, ?S2, ?S3, ?S4, ?S5, ?S6, ?S7, ?S8, ?S9, ?S10, ?S11 in *.
+
+  Ltac eqb_cases :=
+    repeat match goal with
+           | |- context [Nat.eqb ?a ?b] => destruct (Nat.eqb_spec a b)
+           | H : context [Nat.eqb ?a ?b] |- _ => destruct (Nat.eqb_spec a b)
+           end.
+
+  Ltac fin :=
+    rewrite ?idx_occ_app, ?pds_occ_app, ?idx_occ_one, ?pds_occ_one, ?map_app, ?list_sum_app in *;
+    cbn [map] in *;
+    rewrite ?list_sum_cons, ?list_sum_nil in *;
+    unfold pd_occ, ty_occ in *;
+    cbn [body_occ type_occ option_map fst snd pd_body pd_type r_body r_type y_body y_type] in *;
+    eqb_cases; lia.
+
+  Lemma total_same : forall a b i, same_buckets a b -> total i a = total i b.
+  Proof. intros a b i H. occ_unfold. same_rw H. reflexivity. Qed.
+
+  Lemma handle_total_le : forall k f st i,
+    total i (handle E k f st) <= total i st + (if Nat.eqb i k then 1 else 0).
+  Proof.
+    intros k f st i. unfold handle.
+    destruct (lookup_handler (f_tag f) handler_table) as [[]|].
+    - (* return *) unfold handle_return. pose proof (unexpected_arg_same k f st) as H.
+      unfold ret_or_new. occ_unfold. same_rw H. destruct (st_ret st); fin.
+    - (* yield *) unfold handle_yield. pose proof (unexpected_arg_same k f st) as H.
+      unfold yld_or_new. occ_unfold. same_rw H. destruct (st_yld st); fin.
+    - (* rtype *) unfold handle_returntype. pose proof (unexpected_arg_same k f st) as H.
+      unfold ret_or_new. occ_unfold. same_rw H. destruct (st_ret st); fin.
+    - (* ytype *) unfold handle_yieldtype. pose proof (unexpected_arg_same k f st) as H.
+      unfold yld_or_new. occ_unfold. same_rw H. destruct (st_yld st); fin.
+    - (* type *) unfold handle_type. destruct (e_obj E).
+      + pose proof (param_name_same k f st) as H.
+        destruct (handle_param_name E k f st) as [[n|] st1]; cbn [snd] in H.
+        * match goal with |- context [if ?c then _ else st1] => destruct c end.
+          -- pose proof (param_not_found_same k n st1) as H2.
+             pose proof (dict_set_occ_le i n (Some (TyField k, FromDoc)) (st_types (handle_param_not_found E k n st1))) as D.
+             occ_unfold. same_rw H2. same_rw H. fin.
+          -- pose proof (dict_set_occ_le i n (Some (TyField k, FromDoc)) (st_types st1)) as D.
+             occ_unfold. same_rw H. fin.
+        * rewrite (total_same _ _ i H). fin.
+      + destruct (f_arg f) as [a|]; [|fin].
+        pose proof (dict_set_occ_le i {| pn_text := a; pn_star := SNone |} (Some (TyField k, FromDoc)) (st_types st)) as D.
+        occ_unfold. fin.
+      + destruct (f_arg f) as [a|]; [|fin].
+        pose proof (dict_set_occ_le i {| pn_text := a; pn_star := SNone |} (Some (TyField k, FromDoc)) (st_types st)) as D.
+        occ_unfold. fin.
+      + destruct (f_arg f); occ_unfold; fin.
+    - (* param *) unfold handle_param. pose proof (param_name_same k f st) as H.
+      destruct (handle_param_name E k f st) as [[n|] st1]; cbn [snd] in H.
+      + match goal with |- context [if pdesc_named ?a ?b then _ else _] => destruct (pdesc_named a b) end;
+        match goal with |- context [if negb ?c then _ else _] => destruct c end; cbn [negb];
+        try (match goal with |- context [handle_param_not_found E k n ?s] =>
+               rewrite (total_same _ _ i (param_not_found_same k n s)) end);
+        occ_unfold; same_rw H; fin.
+      + rewrite (total_same _ _ i H). fin.
+    - (* keyword *) unfold handle_keyword. pose proof (param_name_same k f st) as H.
+      destruct (handle_param_name E k f st) as [[n|] st1]; cbn [snd] in H.
+      + match goal with |- context [if ?c then _ else _] => destruct c end; occ_unfold; same_rw H; fin.
+      + rewrite (total_same _ _ i H). fin.
+    - (* elsewhere *) fin.
+    - (* raises *) unfold handle_raises. destruct (f_arg f); occ_unfold; fin.
+    - (* warns *) unfold handle_warns. destruct (f_arg f); occ_unfold; fin.
+    - occ_unfold; fin.
+    - occ_unfold; fin.
+    - occ_unfold; fin.
+    - occ_unfold; fin.
+    - (* unknown *) unfold handle_unknown. occ_unfold. rewrite unknowns_add_occ. cbn beta. unfold unk_list_occ. cbn [map snd]. rewrite idx_occ_one. fin.
+  Qed.
+
+  (* ---- what one step does to the buckets (reports aside) ---------------------------------------------- *)
+  Inductive upd :=
+  | UNone | URet (r : rdesc) | UYld (y : ydesc) | UTypes (t : list (pname * option (tyref * origin)))
+  | UPdescs (l : list pdesc) | URaises (l : list (tyref * nat)) | UWarns (l : list (option tyref * nat))
+  | USee (l : list nat) | UNotes (l : list nat) | UAuthors (l : list nat) | USinces (l : list nat)
+  | UUnknowns (d : list (text * list (option text * nat))).
+
+  Definition apply_upd (u : upd) (st : state) : state :=
+    match u with
+    | UNone => st
+    | URet r => set_ret (Some r) st
+    | UYld y => set_yld (Some y) st
+    | UTypes t => set_types t st
+    | UPdescs l => set_pdescs l st
+    | URaises l => set_raises l st
+    | UWarns l => set_warns l st
+    | USee l => set_seealsos l st
+    | UNotes l => set_notes l st
+    | UAuthors l => set_authors l st
+    | USinces l => set_sinces l st
+    | UUnknowns d => set_unknowns d st
+    end.
+
+  Definition new_pdesc (n : pname) (kw : bool) (k : nat) : pdesc :=
+    {| pd_name := n; pd_kw := kw; pd_body := Some k; pd_type := None; pd_origin := None |}.
+
+  Definition effect (k : nat) (g : field) (st : state) : upd :=
+    match lookup_handler (f_tag g) handler_table with
+    | Some HReturn => URet {| r_type := r_type (ret_or_new st); r_body := Some k; r_origin := r_origin (ret_or_new st) |}
+    | Some HYield => UYld {| y_type := y_type (yld_or_new st); y_body := Some k |}
+    | Some HReturnType => URet {| r_type := Some (TyField k); r_body := r_body (ret_or_new st); r_origin := Some FromDoc |}
+    | Some HYieldType => UYld {| y_type := Some (TyField k); y_body := y_body (yld_or_new st) |}
+    | Some HType =>
+      match e_obj E with
+      | OAttribute => UNone
+      | OFunction _ =>
+        match fst (handle_param_name E k g st) with
+        | Some n => UTypes (dict_set n (Some (TyField k, FromDoc)) (st_types st))
+        | None => UNone
+        end
+      | _ =>
+        match f_arg g with
+        | Some a => UTypes (dict_set {| pn_text := a; pn_star := SNone |} (Some (TyField k, FromDoc)) (st_types st))
+        | None => UNone
+        end
+      end
+    | Some HParam =>
+      match fst (handle_param_name E k g st) with
+      | Some n => UPdescs (st_pdescs st ++ [new_pdesc n false k])
+      | None => UNone
+      end
+    | Some HKeyword =>
+      match fst (handle_param_name E k g st) with
+      | Some n => UPdescs (st_pdescs st ++ [new_pdesc n true k])
+      | None => UNone
+      end
+    | Some HElsewhere => UNone
+    | Some HRaises => URaises (st_raises st ++ [(match f_arg g with Some a => TyLink a | None => TyUnknownExc end, k)])
+    | Some HWarns => UWarns (st_warns st ++ [(option_map TyLink (f_arg g), k)])
+    | Some HSeeAlso => USee (st_seealsos st ++ [k])
+    | Some HNote => UNotes (st_notes st ++ [k])
+    | Some HAuthor => UAuthors (st_authors st ++ [k])
+    | Some HSince => USinces (st_sinces st ++ [k])
+    | None => UUnknowns (unknowns_add (f_tag g) (f_arg g, k) (st_unknowns st))
+    end.
+
+  Ltac sb_solve :=
+    unfold same_buckets; st_simpl;
+    repeat match goal with H : same_buckets _ _ |- _ => same_rw H end;
+    repeat (split; [reflexivity|]);
+    repeat match goal with H : exists e, st_reports _ = _ ++ e |- _ => let x := fresh "x" in destruct H as [x H] end;
+    repeat match goal with Hr : st_reports _ = _ ++ _ |- _ => rewrite Hr end;
+    rewrite <- ?app_assoc; first [eexists; reflexivity | exists []; rewrite app_nil_r; reflexivity].
+
+  Lemma handle_effect : forall k g st, same_buckets (handle E k g st) (apply_upd (effect k g st) st).
+  Proof.
+    intros k g st. unfold handle, effect.
+    destruct (lookup_handler (f_tag g) handler_table) as [[]|]; cbn [apply_upd].
+    - unfold handle_return. pose proof (unexpected_arg_same k g st) as H. unfold ret_or_new. sb_solve.
+    - unfold handle_yield. pose proof (unexpected_arg_same k g st) as H. unfold yld_or_new. sb_solve.
+    - unfold handle_returntype. pose proof (unexpected_arg_same k g st) as H. unfold ret_or_new. sb_solve.
+    - unfold handle_yieldtype. pose proof (unexpected_arg_same k g st) as H. unfold yld_or_new. sb_solve.
+    - unfold handle_type. destruct (e_obj E).
+      + pose proof (param_name_same k g st) as H.
+        destruct (handle_param_name E k g st) as [[n|] st1]; cbn [fst snd apply_upd] in *.
+        * match goal with |- context [if ?c then _ else st1] => destruct c end.
+          -- pose proof (param_not_found_same k n st1) as H2. sb_solve.
+          -- sb_solve.
+        * exact H.
+      + destruct (f_arg g); cbn [apply_upd]; sb_solve.
+      + destruct (f_arg g); cbn [apply_upd]; sb_solve.
+      + cbn [apply_upd]. destruct (f_arg g); sb_solve.
+    - unfold handle_param. pose proof (param_name_same k g st) as H.
+      destruct (handle_param_name E k g st) as [[n|] st1]; cbn [fst snd apply_upd] in *; [|exact H].
+      match goal with |- context [if pdesc_named ?a ?b then _ else _] => destruct (pdesc_named a b) end;
+        match goal with |- context [if negb ?c then _ else _] => destruct c end; cbn [negb];
+        try (match goal with |- context [handle_param_not_found E k n ?s] =>
+               pose proof (param_not_found_same k n s) end);
+        unfold new_pdesc; sb_solve.
+
+    - unfold handle_keyword. pose proof (param_name_same k g st) as H.
+      destruct (handle_param_name E k g st) as [[n|] st1]; cbn [fst snd apply_upd] in *; [|exact H].
+      match goal with |- context [if ?c then _ else _] => destruct c end; unfold new_pdesc; sb_solve.
+    - apply same_buckets_refl.
+    - unfold handle_raises. destruct (f_arg g); sb_solve.
+    - unfold handle_warns. sb_solve.
+    - sb_solve.
+    - sb_solve.
+    - sb_solve.
+    - sb_solve.
+    - unfold handle_unknown. sb_solve.
+  Qed.
+
+  Lemma reports_apply_upd : forall u st, st_reports (apply_upd u st) = st_reports st.
+  Proof. intros [] st; reflexivity. Qed.
+
+  Lemma handle_reports_mono : forall k g st, exists extra, st_reports (handle E k g st) = st_reports st ++ extra.
+  Proof.
+    intros k g st. destruct (handle_effect k g st) as (_ & _ & _ & _ & _ & _ & _ & _ & _ & _ & _ & x & Hx).
+    exists x. rewrite Hx, reports_apply_upd. reflexivity.
+  Qed.
+
+  Lemma reported_mono : forall i k g st, reported_at i (st_reports st) -> reported_at i (st_reports (handle E k g st)).
+  Proof.
+    intros i k g st (r & Hr & Hi). destruct (handle_reports_mono k g st) as [x Hx].
+    exists r. split; [rewrite Hx; apply in_or_app; left; exact Hr | exact Hi].
+  Qed.
+
+  (* ---- where a field's text sits in the state --------------------------------------------------------- *)
+  Definition in_types (n : text) (i : nat) (tys : list (pname * option (tyref * origin))) : Prop :=
+    exists k, In (k, Some (TyField i, FromDoc)) tys /\ pn_text k = n.
+
+  Definition in_pdescs (n : text) (i : nat) (ds : list pdesc) : Prop :=
+    exists l1 p l2, ds = l1 ++ p :: l2 /\ pn_text (pd_name p) = n /\ pd_body p = Some i /\ pd_type p = None /\
+                    Forall (fun q => pn_text (pd_name q) <> n) l2.
+
+  Definition placed (i : nat) (f : field) (st : state) : Prop :=
+    match lookup_handler (f_tag f) handler_table with
+    | Some HReturn => exists r, st_ret st = Some r /\ r_body r = Some i
+    | Some HReturnType => exists r, st_ret st = Some r /\ r_type r = Some (TyField i) /\ r_origin r = Some FromDoc
+    | Some HYield => exists y, st_yld st = Some y /\ y_body y = Some i
+    | Some HYieldType => exists y, st_yld st = Some y /\ y_type y = Some (TyField i)
+    | Some HType => exists n, arg_name f = Some n /\ in_types n i (st_types st)
+    | Some HParam | Some HKeyword => exists n, arg_name f = Some n /\ in_pdescs n i (st_pdescs st)
+    | Some HElsewhere => False
+    | Some HRaises => exists t, In (t, i) (st_raises st)
+    | Some HWarns => exists t, In (t, i) (st_warns st)
+    | Some HSeeAlso => In i (st_seealsos st)
+    | Some HNote => In i (st_notes st)
+    | Some HAuthor => In i (st_authors st)
+    | Some HSince => In i (st_sinces st)
+    | None => exists l a, In (f_tag f, l) (st_unknowns st) /\ In (a, i) l
+    end.
+
+  Lemma dict_set_in : forall {V} (k : pname) (v : V) d,
+    exists k', In (k', v) (dict_set k v d) /\ pn_text k' = pn_text k.
+  Proof.
+    intros V k v d. induction d as [|[k0 v0] d IH]; cbn [dict_set].
+    - exists k. split; [left; reflexivity | reflexivity].
+    - destruct (text_eqb (pn_text k0) (pn_text k)) eqn:Ek.
+      + exists k0. split; [left; reflexivity | apply text_eqb_eq; exact Ek].
+      + destruct IH as (k' & H1 & H2). exists k'. split; [right; exact H1 | exact H2].
+  Qed.
+
+  Lemma dict_set_keep : forall {V} (k : pname) (v : V) d k0 v0,
+    In (k0, v0) d -> pn_text k0 <> pn_text k -> In (k0, v0) (dict_set k v d).
+  Proof.
+    intros V k v d k0 v0. induction d as [|[k1 v1] d IH]; cbn [dict_set]; intros Hin Hne; [contradiction|].
+    destruct (text_eqb (pn_text k1) (pn_text k)) eqn:Ek.
+    - destruct Hin as [Hin | Hin].
+      + inversion Hin; subst. apply text_eqb_eq in Ek. contradiction.
+      + right. exact Hin.
+    - destruct Hin as [Hin | Hin]; [left; exact Hin | right; apply IH; assumption].
+  Qed.
+
+  Lemma unknowns_add_in : forall tag v d, exists l, In (tag, l) (unknowns_add tag v d) /\ In v l.
+  Proof.
+    intros tag v d. induction d as [|[k l] d IH]; cbn [unknowns_add].
+    - exists [v]. split; left; reflexivity.
+    - destruct (text_eqb k tag) eqn:Ek.
+      + apply text_eqb_eq in Ek. subst k. exists (l ++ [v]). split; [left; reflexivity | apply in_or_app; right; left; reflexivity].
+      + destruct IH as (l' & H1 & H2). exists l'. split; [right; exact H1 | exact H2].
+  Qed.
+
+  Lemma unknowns_add_keep : forall tag v d tag0 l0 x,
+    In (tag0, l0) d -> In x l0 -> exists l, In (tag0, l) (unknowns_add tag v d) /\ In x l.
+  Proof.
+    intros tag v d tag0 l0 x. induction d as [|[k l] d IH]; cbn [unknowns_add]; intros Hin Hx; [contradiction|].
+    destruct (text_eqb k tag) eqn:Ek.
+    - destruct Hin as [Hin | Hin].
+      + inversion Hin; subst. exists (l0 ++ [v]). split; [left; reflexivity | apply in_or_app; left; exact Hx].
+      + exists l0. split; [right; exact Hin | exact Hx].
+    - destruct Hin as [Hin | Hin].
+      + inversion Hin; subst. exists l0. split; [left; reflexivity | exact Hx].
+      + destruct (IH Hin Hx) as (l' & H1 & H2). exists l'. split; [right; exact H1 | exact H2].
+  Qed.
+
+  Ltac use_effect k g st :=
+    let HE := fresh "HE" in
+    pose proof (handle_effect k g st) as HE; unfold effect in HE.
+
+  (* the step of field k puts its text where `placed` says, or reports *)
+  Lemma handle_places : forall k g st,
+    is_function_obj E = true ->
+    lookup_handler (f_tag g) handler_table <> Some HElsewhere ->
+    placed k g (handle E k g st) \/ reported_at k (st_reports (handle E k g st)).
+  Proof.
+    intros k g st Hfun Hne. unfold placed.
+    pose proof (handle_effect k g st) as HE. unfold effect in HE.
+    unfold is_function_obj in Hfun.
+    destruct (lookup_handler (f_tag g) handler_table) as [[]|] eqn:Hh; try congruence; cbn [apply_upd] in HE.
+    - left. same_rw HE. eexists. split; [reflexivity | reflexivity].
+    - left. same_rw HE. eexists. split; [reflexivity | reflexivity].
+    - left. same_rw HE. eexists. split; [reflexivity | split; reflexivity].
+    - left. same_rw HE. eexists. split; [reflexivity | reflexivity].
+    - (* type *) destruct (e_obj E) eqn:Eo; try discriminate.
+      destruct (fst (handle_param_name E k g st)) as [n|] eqn:Hn.
+      + left. cbn [apply_upd] in HE. same_rw HE. exists (pn_text n). split; [apply (param_name_text k g st); exact Hn|].
+        destruct (dict_set_in n (Some (TyField k, FromDoc)) (st_types st)) as (k' & H1 & H2).
+        exists k'. split; assumption.
+      + right. clear HE. destruct (param_name_none k g st Hn) as (_ & r & Hr & Hk).
+        unfold handle. rewrite Hh. unfold handle_type. rewrite Eo.
+        destruct (handle_param_name E k g st) as [nm st1]; cbn [fst snd] in *. subst nm.
+        exists r. split; [rewrite Hr; apply in_or_app; right; left; reflexivity | exact Hk].
+    - (* param *)
+      destruct (fst (handle_param_name E k g st)) as [n|] eqn:Hn.
+      + left. cbn [apply_upd] in HE. same_rw HE. exists (pn_text n). split; [apply (param_name_text k g st); exact Hn|].
+        exists (st_pdescs st), (new_pdesc n false k), []. repeat split; constructor.
+      + right. clear HE. destruct (param_name_none k g st Hn) as (_ & r & Hr & Hk).
+        unfold handle. rewrite Hh. unfold handle_param.
+        destruct (handle_param_name E k g st) as [nm st1]; cbn [fst snd] in *. subst nm.
+        exists r. split; [rewrite Hr; apply in_or_app; right; left; reflexivity | exact Hk].
+    - (* keyword *)
+      destruct (fst (handle_param_name E k g st)) as [n|] eqn:Hn.
+      + left. cbn [apply_upd] in HE. same_rw HE. exists (pn_text n). split; [apply (param_name_text k g st); exact Hn|].
+        exists (st_pdescs st), (new_pdesc n true k), []. repeat split; constructor.
+      + right. clear HE. destruct (param_name_none k g st Hn) as (_ & r & Hr & Hk).
+        unfold handle. rewrite Hh. unfold handle_keyword.
+        destruct (handle_param_name E k g st) as [nm st1]; cbn [fst snd] in *. subst nm.
+        exists r. split; [rewrite Hr; apply in_or_app; right; left; reflexivity | exact Hk].
+    - left. same_rw HE. eexists. apply in_or_app. right. left. reflexivity.
+    - left. same_rw HE. eexists. apply in_or_app. right. left. reflexivity.
+    - left. same_rw HE. apply in_or_app. right. left. reflexivity.
+    - left. same_rw HE. apply in_or_app. right. left. reflexivity.
+    - left. same_rw HE. apply in_or_app. right. left. reflexivity.
+    - left. same_rw HE. apply in_or_app. right. left. reflexivity.
+    - left. same_rw HE. destruct (unknowns_add_in (f_tag g) (f_arg g, k) (st_unknowns st)) as (l & H1 & H2).
+      exists l, (f_arg g). split; assumption.
+  Qed.
+
+  (* ---- a later step leaves it there, unless it is one of the replacing kinds --------------------------- *)
+  Definition compat (f g : field) : Prop :=
+    (forall s, slot_of f = Some s -> slot_of g = Some s -> False) /\
+    (is_tag ["type"%string] f = true -> is_tag ["type"%string] g = true -> same_name f g = true -> False) /\
+    (is_tag param_tags f = true -> is_tag param_tags g = true -> same_name f g = true -> False).
+
+  Lemma same_name_true : forall f g n, arg_name f = Some n -> arg_name g = Some n -> same_name f g = true.
+  Proof. intros f g n Hf Hg. unfold same_name. rewrite Hf, Hg. apply text_eqb_refl. Qed.
+
+  Lemma in_pdescs_snoc : forall n i ds q, in_pdescs n i ds -> pn_text (pd_name q) <> n -> in_pdescs n i (ds ++ [q]).
+  Proof.
+    intros n i ds q (l1 & p & l2 & H1 & H2 & H3 & H4 & H5) Hq.
+    exists l1, p, (l2 ++ [q]). subst ds. rewrite <- app_assoc. cbn [app]. repeat split; try assumption.
+    apply Forall_app. split; [exact H5 | constructor; [exact Hq | constructor]].
+  Qed.
+
+  Lemma placed_preserved : forall i f k g st,
+    is_function_obj E = true -> compat f g -> placed i f st -> placed i f (handle E k g st).
+  Proof.
+    intros i f k g st Hfun (C1 & C2 & C3) Hp. unfold placed in *.
+    pose proof (handle_effect k g st) as HE. unfold effect in HE.
+    unfold is_function_obj in Hfun.
+    destruct (lookup_handler (f_tag f) handler_table) as [hf|] eqn:Hf.
+    - destruct (known_handler_facts _ _ Hf) as (_ & Fs & Ft & Fp & _).
+      destruct (lookup_handler (f_tag g) handler_table) as [hg|] eqn:Hg.
+      + destruct (known_handler_facts _ _ Hg) as (_ & Gs & Gt & Gp & _).
+        destruct hf; destruct hg; cbn [apply_upd] in HE;
+          try (exfalso; apply (C1 _ Fs Gs));
+          try (destruct (e_obj E) eqn:Eo; try discriminate Hfun);
+          try (destruct (fst (handle_param_name E k g st)) as [n'|] eqn:Hn; cbn [apply_upd] in HE);
+          same_rw HE; try exact Hp; try contradiction;
+          unfold ret_or_new, yld_or_new;
+          try (destruct Hp as (r & Hr1 & Hr2); rewrite Hr1; eexists; split; [reflexivity | first [exact Hr2 | reflexivity]]).
+        all: try (destruct Hp as (t & Ht); exists t; apply in_or_app; left; exact Ht).
+        all: try (apply in_or_app; left; exact Hp).
+        * (* type, type *)
+          destruct Hp as (n & Hn1 & k1 & Hn2 & Hn3). exists n. split; [exact Hn1|].
+          exists k1. split; [|exact Hn3]. apply dict_set_keep; [exact Hn2|].
+          intro Heq. apply C2; [exact Ft | exact Gt |].
+          apply (same_name_true f g n); [exact Hn1|]. rewrite (param_name_text k g st n' Hn). f_equal. congruence.
+        * (* param, param *)
+          destruct Hp as (n & Hn1 & Hn2). exists n. split; [exact Hn1|]. apply in_pdescs_snoc; [exact Hn2|].
+          cbn [new_pdesc pd_name]. intro Heq. apply C3; [exact Fp | exact Gp |].
+          apply (same_name_true f g n); [exact Hn1|]. rewrite (param_name_text k g st n' Hn). f_equal. exact Heq.
+        * destruct Hp as (n & Hn1 & Hn2). exists n. split; [exact Hn1|]. apply in_pdescs_snoc; [exact Hn2|].
+          cbn [new_pdesc pd_name]. intro Heq. apply C3; [exact Fp | exact Gp |].
+          apply (same_name_true f g n); [exact Hn1|]. rewrite (param_name_text k g st n' Hn). f_equal. exact Heq.
+        * destruct Hp as (n & Hn1 & Hn2). exists n. split; [exact Hn1|]. apply in_pdescs_snoc; [exact Hn2|].
+          cbn [new_pdesc pd_name]. intro Heq. apply C3; [exact Fp | exact Gp |].
+          apply (same_name_true f g n); [exact Hn1|]. rewrite (param_name_text k g st n' Hn). f_equal. exact Heq.
+        * destruct Hp as (n & Hn1 & Hn2). exists n. split; [exact Hn1|]. apply in_pdescs_snoc; [exact Hn2|].
+          cbn [new_pdesc pd_name]. intro Heq. apply C3; [exact Fp | exact Gp |].
+          apply (same_name_true f g n); [exact Hn1|]. rewrite (param_name_text k g st n' Hn). f_equal. exact Heq.
+      + (* g unknown *) cbn [apply_upd] in HE. same_rw HE. destruct hf; exact Hp.
+    - (* f unknown *)
+      destruct (lookup_handler (f_tag g) handler_table) as [hg|] eqn:Hg.
+      + destruct hg; cbn [apply_upd] in HE;
+          try (destruct (e_obj E) eqn:Eo; try discriminate Hfun);
+          try (destruct (fst (handle_param_name E k g st)) as [n'|] eqn:Hn; cbn [apply_upd] in HE);
+          same_rw HE; exact Hp.
+      + cbn [apply_upd] in HE. same_rw HE. destruct Hp as (l & a & H1 & H2).
+        destruct (unknowns_add_keep (f_tag g) (f_arg g, k) (st_unknowns st) (f_tag f) l (a, i) H1 H2) as (l' & H3 & H4).
+        exists l', a. split; assumption.
   Qed.
 End WithEnv.
